@@ -12,6 +12,7 @@ RULE = ("each case runs a structure (repository proteins incl. 3SGB with its ins
         "crosses zero or an insertion code present, and >= 2 titratable groups; distinct = distinct "
         "(structure digest, relabelling)."
         " 20 % of the cases select one chain with -c in both runs (by its old and its new name).")
+RULE = RULE + ' Round 8: with identical records the rows of the determinant table and of the summary come in the same order (by atom position) before and after relabelling.'
 ASSUMPTIONS = ["chain maps are order-preserving (the statement's quantifier), so the internal atom sort keeps its order"]
 TIMEOUT = {"quick": 1800, "thorough": 10800}
 KINDS = ("chain-rename", "shift", "icode-renumber")
